@@ -50,8 +50,9 @@ def handle (req : Sexp) : Sexp :=
   | .list [.atom "h256", _, _, e1, r1, e2, r2, .list vals] => Driver.h256Op e1 r1 e2 r2 vals
   | .list [.atom "rtd", _, e, r, _] => Driver.rtdOp e r
   | .list [.atom "loc", .str src, .atom lo, .atom hi] => Driver.locOp src (lo.toNat?.getD 0) (hi.toNat?.getD 0)
-  | .list [.atom "schema-ctx", env, .list rts, .str template, container, .list ovs, .list calls, _] =>
+  | .list [.atom "schema-ctx", env, .list rts, .str template, container, .list ovs, .list calls, docs] =>
     Driver.schemaCtxOp env rts template (match container with | .str k => some k | _ => none) ovs calls
+      (match docs with | .list ds => ds | _ => [])
   | _ => .list [.atom "bad-op"]
 
 partial def loop (h : IO.FS.Stream) (out : IO.FS.Stream) : IO Unit := do
